@@ -216,30 +216,24 @@ func ruleGEffLegacy(c *Ctx) {
 	gotG := map[string][][]condLit{}
 	gotPos := map[string]token.Pos{}
 	nStores := 0
-	for _, b := range fn.Blocks {
-		for _, ins := range b.Instrs {
-			st, ok := ins.(*ssa.Store)
-			if !ok || rootIsLocal(st.Addr) {
-				continue
-			}
-			nStores++
-			key := w.term(st.Addr) + " := " + effectValue(w, st.Val)
-			g, okg := blockGuard(w, b)
-			if !okg {
-				c.Undecided("G-eff", "guard/"+shorten(key, 100), st.Pos(), "the conditions guarding this store cannot be enumerated")
-				continue
-			}
-			for _, cj := range g {
-				var nj []condLit
-				for _, l := range cj {
-					if !common(l.Atom) {
-						nj = append(nj, l)
-					}
-				}
-				gotG[key] = append(gotG[key], nj)
-			}
-			gotPos[key] = st.Pos()
+	sites := effectSites(c, fn, w)
+	for _, es := range sites {
+		nStores++
+		key := es.key
+		if !es.okGuard {
+			c.Undecided("G-eff", "guard/"+shorten(key, 100), es.pos, "the conditions guarding this store cannot be enumerated")
+			continue
 		}
+		for _, cj := range es.guard {
+			var nj []condLit
+			for _, l := range cj {
+				if !common(l.Atom) {
+					nj = append(nj, l)
+				}
+			}
+			gotG[key] = append(gotG[key], nj)
+		}
+		gotPos[key] = es.pos
 	}
 	wantG := map[string][][]condLit{}
 	for _, s := range want {
@@ -286,66 +280,155 @@ func ruleGEffLegacy(c *Ctx) {
 	// bound renumbers its elements; every step that indexes or ranges over that collection speaks of the
 	// original positions and must not be reachable from that store
 	nOrder := 0
-	for _, b := range fn.Blocks {
-		for si, ins := range b.Instrs {
-			st, ok := ins.(*ssa.Store)
-			if !ok || rootIsLocal(st.Addr) {
-				continue
-			}
-			sl, isSl := st.Val.(*ssa.Slice)
-			if !isSl || sl.Low == nil {
-				continue
-			}
-			if k, isK := constInt(sl.Low); isK && k.Sign() == 0 {
-				continue
-			}
-			coll := strings.TrimPrefix(w.term(st.Addr), "&")
-			if coll != strings.TrimPrefix(w.term(sl.X), "*") && !strings.HasPrefix(w.term(sl.X), coll) {
-				continue
-			}
-			nOrder++
-			reach := map[*ssa.BasicBlock]bool{}
-			work := append([]*ssa.BasicBlock{}, b.Succs...)
-			for len(work) > 0 {
-				x := work[0]
-				work = work[1:]
-				if reach[x] {
-					continue
-				}
-				reach[x] = true
-				work = append(work, x.Succs...)
-			}
-			bad := ""
-			for _, b2 := range fn.Blocks {
-				for ei, ins2 := range b2.Instrs {
-					st2, ok := ins2.(*ssa.Store)
-					if !ok || st2 == st || rootIsLocal(st2.Addr) {
-						continue
-					}
-					t2 := strings.TrimPrefix(w.term(st2.Addr), "&")
-					uses := strings.HasPrefix(t2, coll+"[")
-					if g, okg := blockGuard(w, b2); okg {
-						for _, cj := range g {
-							for _, l := range cj {
-								if l.Atom == "i in "+coll {
-									uses = true
-								}
-							}
-						}
-					}
-					if uses && (reach[b2] || (b2 == b && ei > si)) {
-						bad = t2
-					}
-				}
-			}
-			c.Check(bad == "", "G-eff", "order/"+shorten(coll, 80)+"-renumbered-last", st.Pos(), "no step that addresses elements of "+coll+" by position runs after the collection was cut down to the signed element",
-				"the working copy's "+coll+" is re-sliced from a non-zero position before "+bad+" is written: that step addresses elements by their original position and now hits the wrong element (or none)")
+	for _, es := range sites {
+		st := es.store
+		sl, isSl := st.Val.(*ssa.Slice)
+		if !isSl || sl.Low == nil {
+			continue
 		}
+		if k, isK := constInt(sl.Low); isK && k.Sign() == 0 {
+			continue
+		}
+		coll := strings.TrimPrefix(strings.SplitN(es.key, " := ", 2)[0], "&")
+		if !strings.HasPrefix(strings.SplitN(es.key, " := ", 2)[1], coll+"[") {
+			continue
+		}
+		nOrder++
+		bad := ""
+		for _, e2 := range sites {
+			if e2.store == st {
+				continue
+			}
+			t2 := strings.TrimPrefix(strings.SplitN(e2.key, " := ", 2)[0], "&")
+			uses := strings.HasPrefix(t2, coll+"[")
+			for _, cj := range e2.guard {
+				for _, l := range cj {
+					if l.Atom == "i in "+coll {
+						uses = true
+					}
+				}
+			}
+			if uses && es.before(e2) {
+				bad = t2
+			}
+		}
+		c.Check(bad == "", "G-eff", "order/"+shorten(coll, 80)+"-renumbered-last", st.Pos(), "no step that addresses elements of "+coll+" by position runs after the collection was cut down to the signed element",
+			"the working copy's "+coll+" is re-sliced from a non-zero position before "+bad+" is written: that step addresses elements by their original position and now hits the wrong element (or none)")
 	}
 	c.Covered["G-eff:renumbering_stores"] = nOrder
 	if len(gotG) < 9 {
 		c.Undecided("G-eff", "min-instances", fn.Pos(), fmt.Sprintf("only %d distinct effects found (expected the steps of the algorithm)", len(gotG)))
 	}
+}
+
+// effectSite: one store to non-local memory performed by a function or by a helper outside the
+// baseline list that it calls at one site (a part of the function a later change moved out): target and
+// value in the function's own vocabulary, the guard as a DNF (helper-internal guard AND the guard of the
+// call), and where in the function's control flow it happens.
+type effectSite struct {
+	key     string
+	guard   [][]condLit
+	okGuard bool
+	pos     token.Pos
+	store   *ssa.Store
+	at      *ssa.BasicBlock // block of fn in which the store (or the call leading to it) stands
+	idx     int             // instruction index in that block
+	inner   int             // order inside the helper
+}
+
+// before: a path exists on which this site runs before the other one.
+func (e effectSite) before(o effectSite) bool {
+	if e.at == o.at {
+		if e.idx != o.idx {
+			return e.idx < o.idx
+		}
+		return e.inner < o.inner // same helper call: program order inside the helper (approximated by position)
+	}
+	reach := map[*ssa.BasicBlock]bool{}
+	work := append([]*ssa.BasicBlock{}, e.at.Succs...)
+	for len(work) > 0 {
+		x := work[0]
+		work = work[1:]
+		if reach[x] {
+			continue
+		}
+		reach[x] = true
+		work = append(work, x.Succs...)
+	}
+	return reach[o.at]
+}
+
+func effectSites(c *Ctx, fn *ssa.Function, w *WEval) []effectSite {
+	var out []effectSite
+	var collect func(f *ssa.Function, fw *WEval, outer [][]condLit, outerOK bool, at *ssa.BasicBlock, idx int, depth int)
+	collect = func(f *ssa.Function, fw *WEval, outer [][]condLit, outerOK bool, at *ssa.BasicBlock, idx int, depth int) {
+		calls := map[*ssa.Function][]*ssa.Call{}
+		for _, b := range f.Blocks {
+			for _, ins := range b.Instrs {
+				if call, ok := ins.(*ssa.Call); ok {
+					if sc := call.Call.StaticCallee(); sc != nil {
+						calls[sc] = append(calls[sc], call)
+					}
+				}
+			}
+		}
+		n := 0
+		for _, b := range f.Blocks {
+			for i, ins := range b.Instrs {
+				switch x := ins.(type) {
+				case *ssa.Store:
+					if rootIsLocal(x.Addr) {
+						continue
+					}
+					n++
+					g, okg := blockGuard(fw, b)
+					es := effectSite{key: fw.term(x.Addr) + " := " + effectValue(fw, x.Val), pos: x.Pos(), store: x, okGuard: okg && outerOK, at: at, idx: idx, inner: n}
+					if f == fn {
+						es.at, es.idx = b, i
+					}
+					es.guard = dnfAnd(outer, g)
+					out = append(out, es)
+				case *ssa.Call:
+					sc := x.Call.StaticCallee()
+					if sc == nil || depth >= 2 || inlineHelper == nil || !inlineHelper(sc) || len(sc.Blocks) == 0 || len(calls[sc]) != 1 {
+						continue
+					}
+					g, okg := blockGuard(fw, b)
+					sub := newWEval(c.P, sc)
+					sub.depth = fw.depth + 1
+					for pi, p := range sc.Params {
+						if pi < len(x.Call.Args) {
+							sub.args[p] = fw.term(x.Call.Args[pi])
+						}
+					}
+					cat, cidx := at, idx
+					if f == fn {
+						cat, cidx = b, i
+					}
+					collect(sc, sub, dnfAnd(outer, g), okg && outerOK, cat, cidx, depth+1)
+				}
+			}
+		}
+	}
+	collect(fn, w, [][]condLit{nil}, true, nil, 0, 0)
+	return out
+}
+
+// dnfAnd: conjunction of two DNFs.
+func dnfAnd(a, b [][]condLit) [][]condLit {
+	if len(a) == 0 {
+		a = [][]condLit{nil}
+	}
+	if len(b) == 0 {
+		b = [][]condLit{nil}
+	}
+	var out [][]condLit
+	for _, x := range a {
+		for _, y := range b {
+			out = append(out, append(append([]condLit{}, x...), y...))
+		}
+	}
+	return out
 }
 
 // ---- guards as boolean functions ----
